@@ -122,6 +122,44 @@ enum VRate {
     Raw,
     Factor(f64),
     Offset(f64),
+    /// applied one after the other, in order (VehicleCostRate::Combined; may be nested)
+    Combined(Vec<VRate>),
+}
+fn vrate_json(r: &VRate) -> Value {
+    match r {
+        VRate::Zero => json!(["zero"]),
+        VRate::Raw => json!(["raw"]),
+        VRate::Factor(f) => json!(["factor", fb(*f), f]),
+        VRate::Offset(o) => json!(["offset", fb(*o), o]),
+        VRate::Combined(l) => json!(["combined", l.iter().map(vrate_json).collect::<Vec<_>>()]),
+    }
+}
+fn vrate_from(v: &Value) -> VRate {
+    match v[0].as_str().unwrap() {
+        "zero" => VRate::Zero,
+        "raw" => VRate::Raw,
+        "factor" => VRate::Factor(bf(&v[1])),
+        "offset" => VRate::Offset(bf(&v[1])),
+        _ => VRate::Combined(v[1].as_array().unwrap().iter().map(vrate_from).collect()),
+    }
+}
+fn vrate_coq(r: &VRate) -> String {
+    match r {
+        VRate::Zero => "Cost.VZero".to_string(),
+        VRate::Raw => "Cost.VRaw".to_string(),
+        VRate::Factor(f) => format!("(Cost.VFactor {})", cnum(*f)),
+        VRate::Offset(o) => format!("(Cost.VOffset {})", cnum(*o)),
+        VRate::Combined(l) => format!("(Cost.VCombined {})", coq_list(l, vrate_coq)),
+    }
+}
+fn vrate_real(r: &VRate) -> VehicleCostRate {
+    match r {
+        VRate::Zero => VehicleCostRate::Zero,
+        VRate::Raw => VehicleCostRate::Raw,
+        VRate::Factor(f) => VehicleCostRate::Factor { factor: *f },
+        VRate::Offset(o) => VehicleCostRate::Offset { offset: *o },
+        VRate::Combined(l) => VehicleCostRate::Combined(l.iter().map(vrate_real).collect()),
+    }
 }
 #[derive(Clone, Debug)]
 enum NRate {
@@ -203,9 +241,7 @@ fn case_json(c: &Case) -> Value {
         },
         "cost": {
             "weights": c.cost.weights.iter().map(|(n, w)| json!([n, fb(*w), w])).collect::<Vec<_>>(),
-            "vrates": c.cost.vrates.iter().map(|(n, r)| match r {
-                VRate::Zero => json!([n, "zero"]), VRate::Raw => json!([n, "raw"]),
-                VRate::Factor(f) => json!([n, "factor", fb(*f), f]), VRate::Offset(o) => json!([n, "offset", fb(*o), o]) }).collect::<Vec<_>>(),
+            "vrates": c.cost.vrates.iter().map(|(n, r)| json!([n, vrate_json(r)])).collect::<Vec<_>>(),
             "nrates": c.cost.nrates.iter().map(|(n, r)| match r {
                 NRate::Edge(l) => json!([n, "edge", l.iter().map(|(e, x)| json!([e, fb(*x)])).collect::<Vec<_>>()]),
                 NRate::EdgeEdge(l) => json!([n, "edge_edge", l.iter().map(|(a, b, x)| json!([a, b, fb(*x)])).collect::<Vec<_>>()]) }).collect::<Vec<_>>(),
@@ -255,11 +291,13 @@ fn case_from(v: &Value) -> Case {
             weights: v["cost"]["weights"].as_array().unwrap().iter().map(|w| (w[0].as_str().unwrap().to_string(), bf(&w[1]))).collect(),
             vrates: v["cost"]["vrates"].as_array().unwrap().iter().map(|r| {
                 let n = r[0].as_str().unwrap().to_string();
-                match r[1].as_str().unwrap() {
-                    "zero" => (n, VRate::Zero),
-                    "raw" => (n, VRate::Raw),
-                    "factor" => (n, VRate::Factor(bf(&r[2]))),
-                    _ => (n, VRate::Offset(bf(&r[2]))),
+                // [name, [kind, ..]] ; older corpus files: [name, kind, bits, value]
+                match r[1].as_str() {
+                    None => (n, vrate_from(&r[1])),
+                    Some("zero") => (n, VRate::Zero),
+                    Some("raw") => (n, VRate::Raw),
+                    Some("factor") => (n, VRate::Factor(bf(&r[2]))),
+                    Some(_) => (n, VRate::Offset(bf(&r[2]))),
                 }
             }).collect(),
             nrates: v["cost"]["nrates"].as_array().unwrap().iter().map(|r| {
@@ -327,12 +365,7 @@ fn coq_case(c: &Case, op: &str) -> String {
         coq_list(&c.cost.vrates, |(n, r)| format!(
             "({}, {})",
             coq_string(n),
-            match r {
-                VRate::Zero => "Cost.VZero".to_string(),
-                VRate::Raw => "Cost.VRaw".to_string(),
-                VRate::Factor(f) => format!("Cost.VFactor {}", cnum(*f)),
-                VRate::Offset(o) => format!("Cost.VOffset {}", cnum(*o)),
-            }
+            vrate_coq(r)
         )),
         coq_list(&c.cost.nrates, |(n, r)| format!(
             "({}, {})",
@@ -509,12 +542,7 @@ fn build_instance(c: &Case, dir: &Path) -> Result<SearchInstance, String> {
         }
     };
     let sm = StateModel::try_from(&features_json(&c.features)).map_err(|_| "BuildError".to_string())?;
-    let vr = |r: &VRate| match r {
-        VRate::Zero => VehicleCostRate::Zero,
-        VRate::Raw => VehicleCostRate::Raw,
-        VRate::Factor(f) => VehicleCostRate::Factor { factor: *f },
-        VRate::Offset(o) => VehicleCostRate::Offset { offset: *o },
-    };
+    let vr = vrate_real;
     let nr = |r: &NRate| match r {
         NRate::Edge(l) => NetworkCostRate::EdgeLookup { lookup: l.iter().map(|(e, x)| (EdgeId(*e), Cost::new(*x))).collect() },
         NRate::EdgeEdge(l) => NetworkCostRate::EdgeEdgeLookup { lookup: l.iter().map(|(a, b, x)| ((EdgeId(*a), EdgeId(*b)), Cost::new(*x))).collect() },
@@ -1009,8 +1037,11 @@ fn add_case(st: &mut Stream, c: Case, family: &str, dir: &Path, plugin: &Travers
                         turns_taken.push(json!({"from_heading": ha.1.unwrap_or(ha.0), "to_heading": hb.0, "difference": ang}));
                     }
                     st.count(&format!("turn:{}", cls));
-                    if cls != "NoTurn" && table.iter().any(|(t, d)| t == cls && *d != 0.0) {
+                    if table.iter().any(|(t, d)| t == cls && *d != 0.0) {
                         delayed_turn = true;
+                    }
+                    if ang == 0 {
+                        st.count("turn:exactly_straight");
                     }
                 }
             }
@@ -1021,6 +1052,9 @@ fn add_case(st: &mut Stream, c: Case, family: &str, dir: &Path, plugin: &Travers
     st.count(if c.cost.mul { "cost_agg:mul" } else { "cost_agg:sum" });
     if !c.cost.nrates.is_empty() {
         st.count("cost:network_rates");
+    }
+    if c.cost.vrates.iter().any(|(_, r)| matches!(r, VRate::Combined(_))) {
+        st.count("cost:combined_vehicle_rate");
     }
     if c.cost.vrates.iter().any(|(_, r)| !matches!(r, VRate::Raw)) || c.cost.weights.iter().any(|(_, w)| *w != 1.0) {
         st.count("cost:weighted_or_rated");
@@ -1077,7 +1111,8 @@ fn line_graph(n_edges: usize, len: impl Fn(usize) -> f64) -> (usize, Vec<(usize,
     (n_edges + 1, (0..n_edges).map(|i| (i, i + 1, len(i))).collect())
 }
 fn full_table(base: f64) -> Vec<(String, f64)> {
-    TURNS.iter().enumerate().map(|(i, t)| (t.to_string(), if i == 0 { 0.0 } else { base * (i as f64 + 0.5) })).collect()
+    // every class, "no_turn" included, has its own non-zero delay (a junction costs time even straight through)
+    TURNS.iter().enumerate().map(|(i, t)| (t.to_string(), base * (i as f64 + 0.5))).collect()
 }
 fn delay_base(u: &str) -> f64 {
     match u {
@@ -1241,6 +1276,27 @@ fn boundary(st: &mut Stream, n: usize, dir: &Path, plugin: &TraversalPlugin) {
     for (fam, c) in cases {
         add_case(st, c, fam, dir, plugin);
     }
+    // Combined vehicle rates: the members are applied in the listed order (offset before factor != factor before offset)
+    for (k, chain) in [
+        vec![VRate::Offset(25.0), VRate::Factor(0.01)],
+        vec![VRate::Factor(0.01), VRate::Offset(25.0)],
+        vec![VRate::Offset(25.0), VRate::Zero],
+        vec![VRate::Offset(4.0), VRate::Combined(vec![VRate::Factor(0.5), VRate::Offset(3.0), VRate::Factor(2.0)])],
+        vec![],
+    ]
+    .into_iter()
+    .enumerate()
+    {
+        let mut c = base(sp(vec![10.0, 20.0, 30.0]), turn(h3.clone(), full_table(1.5), "time"), std_features("Meters", "Seconds"), e3.clone(), 3, if k % 2 == 0 { Op::Forward(vec![0, 1, 2]) } else { Op::Via(vec![0], vec![2, 1]) });
+        c.cost.weights = vec![("distance".into(), 2.0), ("time".into(), 1.0)];
+        c.cost.vrates = vec![("distance".into(), VRate::Combined(chain.clone())), ("time".into(), if k == 3 { VRate::Combined(vec![VRate::Offset(1.0), VRate::Factor(0.5)]) } else { VRate::Factor(0.5) })];
+        add_case(st, c, "combined_vehicle_rate", dir, plugin);
+    }
+    // collinear edges: the headings of consecutive edges are exactly equal and "no_turn" has its own delay
+    for (k, hs) in [vec![(90, None), (90, None), (90, None)], vec![(10, Some(200)), (200, Some(359)), (359, None)], vec![(0, None), (0, Some(180)), (180, None)]].into_iter().enumerate() {
+        let c = base(if k == 1 { sp(vec![10.0, 20.0, 30.0]) } else { Tm::Dist("Meters".into()) }, turn(hs, full_table(2.5), "time"), std_features("Meters", if k == 2 { "Minutes" } else { "Seconds" }), e3.clone(), 3, if k == 2 { Op::Reverse(vec![2, 1, 0]) } else { Op::Forward(vec![0, 1, 2]) });
+        add_case(st, c, "straight_through", dir, plugin);
+    }
     // weights summing to zero: the cost model cannot be built
     {
         let mut c = base(Tm::Dist("Meters".into()), Am::None, std_features("Meters", "Seconds"), e3.clone(), 3, Op::Forward(vec![0]));
@@ -1317,22 +1373,44 @@ fn random_case(r: &mut Rng, search: bool, pair_summary: bool) -> (Case, &'static
         let u = r.pick(&TIME).to_string();
         let b = delay_base(&u) * (1.0 + r.below(4) as f64);
         let mut table = full_table(b);
-        if r.chance(1, 4) {
+        if r.chance(1, 3) {
+            // random, pairwise distinct, non-zero
+            let mut seen: Vec<u64> = vec![];
             for t in table.iter_mut() {
-                t.1 = nice(r, 0.0, b * 8.0);
+                loop {
+                    let v = nice(r, b * 0.125, b * 8.0);
+                    if !seen.contains(&v.to_bits()) {
+                        seen.push(v.to_bits());
+                        t.1 = v;
+                        break;
+                    }
+                }
             }
-            table[0].1 = 0.0;
+        }
+        if r.chance(1, 5) {
+            table[0].1 = 0.0; // the stock configurations: going straight is free
         }
         r.shuffle(&mut table);
+        // headings: arbitrary, or (half of the cases) taken from a small pool around one direction, so that
+        // consecutive edges are collinear (difference exactly 0) or sit on a class boundary (+-1, 19/20, 44/45,
+        // 134/135, 159/160, 179/180/-180)
+        let base_h = r.range(0, 359);
+        let pool: Vec<i64> = [0i64, 0, 0, 1, -1, 19, 20, -19, -20, 44, 45, -45, 134, 135, -135, 159, 160, -160, 179, 180, -179].iter().map(|d| (base_h + d).rem_euclid(360)).collect();
+        let collinear = r.chance(1, 2);
         let headings = (0..edges.len())
             .map(|_| {
-                let a = r.range(0, 359);
-                let d = match r.below(5) {
-                    0 | 1 => None,
-                    2 => Some((a + r.range(-30, 30)).rem_euclid(360)),
-                    _ => Some(r.range(0, 359)),
-                };
-                (a, d)
+                if collinear {
+                    let a = *r.pick(&pool);
+                    (a, match r.below(4) { 0 => Some(*r.pick(&pool)), 1 => Some(a), _ => None })
+                } else {
+                    let a = r.range(0, 359);
+                    let d = match r.below(5) {
+                        0 | 1 => None,
+                        2 => Some((a + r.range(-30, 30)).rem_euclid(360)),
+                        _ => Some(r.range(0, 359)),
+                    };
+                    (a, d)
+                }
             })
             .collect();
         Am::Turn { headings, table, unit: u, fname: "time".into() }
@@ -1376,11 +1454,19 @@ fn random_case(r: &mut Rng, search: bool, pair_summary: bool) -> (Case, &'static
             }
             vrates.push((
                 n.clone(),
-                match r.below(6) {
+                match r.below(8) {
                     0 => VRate::Zero,
                     1 | 2 => VRate::Raw,
                     3 | 4 => VRate::Factor(nice(r, 0.125, 10.0)),
-                    _ => VRate::Offset(nice(r, 0.0, 2.0)),
+                    5 => VRate::Offset(nice(r, 0.0, 2.0)),
+                    // chains, applied in order: an offset BEFORE a factor is not the same as after it; nested chains
+                    6 => match r.below(4) {
+                        0 => VRate::Combined(vec![VRate::Offset(nice(r, 1.0, 50.0)), VRate::Factor(nice(r, 0.0078125, 4.0))]),
+                        1 => VRate::Combined(vec![VRate::Factor(nice(r, 0.125, 4.0)), VRate::Offset(nice(r, 0.5, 20.0))]),
+                        2 => VRate::Combined(vec![VRate::Offset(nice(r, 1.0, 50.0)), VRate::Combined(vec![VRate::Factor(nice(r, 0.125, 4.0)), VRate::Offset(nice(r, 0.5, 5.0)), VRate::Factor(nice(r, 0.25, 2.0))])]),
+                        _ => VRate::Combined(vec![VRate::Raw, VRate::Offset(nice(r, 1.0, 10.0)), VRate::Factor(nice(r, 0.125, 2.0)), VRate::Combined(vec![])]),
+                    },
+                    _ => VRate::Combined(vec![VRate::Offset(nice(r, 1.0, 30.0)), if r.chance(1, 4) { VRate::Zero } else { VRate::Factor(nice(r, 0.015625, 2.0)) }]),
                 },
             ));
         }
